@@ -62,6 +62,10 @@ func (m *DomainMatcher) Add(labels [][]byte) {
 			continue
 		}
 		hasLabel = true
+		if child, ok := currentNode.GetChild(label); ok && child == nil {
+			// A shorter (broader) entry already ends here. It covers this entry.
+			return
+		}
 		if i == 0 { // is leaf
 			currentNode.AddLeaf(label)
 		} else {
